@@ -237,6 +237,9 @@ def gen_stmts(cx):
         out.append(src)
     out += [b"", b";", b"a", b"a:b", b"a:b;", b"a:b { }", b"a:b { ; }", b"a:b { ; ; }", b"a:b {{ ; }}", b"a:b x y;", b"a:b \"x\" \"y\";",
             b"a:b } ", b"input { a:b; }", b"input; output{}", b"description\r\n \"x\";", b"a:b \"x\"\n+\n\"y\" { c:d 'z'; }",
+            # extension prefixes that start with (or are) a statement keyword, and keyword-like words without a colon (F105)
+            b"type-x:y \"a\";", b"type-x:y;", b"leaf-listing:z { type-x:y 'q'; }", b"container1:e { }", b"input2:e;", b"must.x:e \"1\";",
+            b"type_:e;", b"type-x y;", b"type-x;", b"typex { }", b"type:e;", b"leaf:e { leaf:e; }", b"type-:e;", b"type-x: e;", b"type-x:;",
             b"{" * 501, b"a:b " + b"{ a:b " * 499 + b";" + b"}" * 499, b"a:b " + b"{ a:b " * 500 + b";" + b"}" * 500]
     return [s.replace(b"\x00", b"") for s in out]
 
